@@ -12,13 +12,13 @@
     [output_capacity] for the encoder and [count * k] for the decoder, and every index written is below
     [count * k] by construction of the two loops. *)
 From Coq Require Import NArith ZArith List Bool.
-From Carquet Require Import Base.Res Enc.DeltaBits Enc.PlainModel.
+From Carquet Require Import Gen.Enums_gen Base.Res Enc.DeltaBits Enc.PlainModel.
 Import ListNotations.
 Local Open Scope N_scope.
 
-Definition ERR_DECODE : Z := 40%Z.
-Definition ERR_ENCODE : Z := 41%Z.
-Definition ERR_INVALID_ARGUMENT : Z := 1%Z.
+Definition ERR_DECODE : Z := E_CARQUET_ERROR_DECODE.
+Definition ERR_ENCODE : Z := E_CARQUET_ERROR_ENCODE.
+Definition ERR_INVALID_ARGUMENT : Z := E_CARQUET_ERROR_INVALID_ARGUMENT.
 
 Definition rd (buf : list N) (i : nat) : res N :=
   match nth_error buf i with Some b => Ok b | None => Fault OobRead end.
